@@ -23,6 +23,17 @@ def cases(seed, tier):
         c = wp.std_case(r, sch.np_seed(f"s{k}"), kinds=("hole",), scenarios=("plain", "plain", "plain", "crash_resume"), evals=("scalar", "vector", "pool"), vv=False)
         c["cfg"]["ess_ratio"] = r.choice([1.0, 2.0, 4.0, 8.0])
         c["cfg"]["n_particles"] = r.choice([16, 32, 64])
+        if r.random() < 0.12:
+            # stateful user model: every point of the first one or two prior batches has zero likelihood, afterwards the region is as specified
+            # (often f=1 from then on), so a whole batch is redrawn and the batch finally kept may contain no -inf at all
+            c["target"]["dead_first"] = c["cfg"]["n_particles"] * r.choice([1, 2])
+            if r.random() < 0.6:
+                c["target"]["cut"] = list(c["target"]["hi"])
+            c["eval"] = r.choice(["scalar", "vector"])
+            c.pop("pool", None)
+            c["scenario"] = "plain"
+            for k2 in ("like_fault", "save_every", "reconfig", "resume_n_total"):
+                c.pop(k2, None)
         out.append(c)
     return out
 
